@@ -19,6 +19,7 @@ import petl as etl
 from petl.util.materialise import cache as _cache
 
 H = ("k", "j", "v", "s")
+_RN0 = {"v": "v2", "s": "s2", "j": "j2"}
 
 ENTRIES = collections.OrderedDict()
 
@@ -77,6 +78,47 @@ E("addcolumn", 1, lambda S: etl.addcolumn(S[0], "z", [1, 2, 3]), "stream rect",
   empty=[H + ("z",)] + [(None,) * 4 + (i,) for i in (1, 2, 3)])
 E("addfieldusingcontext", 1,
   lambda S: etl.addfieldusingcontext(S[0], "z", lambda p, c, n: 0 if p is None else 1), "stream rect")
+# ---- non-default argument forms of the same operators (other code paths over the caller's rows) -----------------
+E("stack_notrim", 2, lambda S: etl.stack(S[0], S[1], trim=False), "stream")
+E("stack_nopad", 2, lambda S: etl.stack(S[0], S[1], pad=False, missing="M"), "stream")
+E("stack_single", 1, lambda S: etl.stack(S[0], missing="M", trim=False), "stream")
+E("cat_single_missing", 1, lambda S: etl.cat(S[0], missing="M"), "stream")
+E("annex_missing", 2, lambda S: etl.annex(S[0], S[1], missing="M"), "stream")
+E("cut_missing", 1, lambda S: etl.cut(S[0], "s", 0, missing="M"), "stream")
+E("cutout_missing", 1, lambda S: etl.cutout(S[0], "k", "v", missing="M"), "stream")
+E("addfield_index0_missing", 1, lambda S: etl.addfield(S[0], "z", lambda r: r["s"], index=0, missing="M"), "stream")
+E("addfields_missing", 1, lambda S: etl.addfields(S[0], [("y", 1, 2)], missing="M"), "stream")
+E("addcolumn_index_missing", 1, lambda S: etl.addcolumn(S[0], "z", [1], index=1, missing="M"), "stream rect",
+  empty=[("k", "z", "j", "v", "s"), ("M", 1, "M", "M", "M")])
+E("addrownumbers_args", 1, lambda S: etl.addrownumbers(S[0], start=5, step=-1, field="n"), "stream")
+E("movefield_end", 1, lambda S: etl.movefield(S[0], "k", 3), "stream")
+E("sortheader_reverse", 1, lambda S: etl.sortheader(S[0], reverse=True, missing="M"), "stream")
+E("rename_nonstrict", 1, lambda S: etl.rename(S[0], {"k": "K", "nosuch": "X"}, strict=False), "stream")
+E("filldown_missing", 1, lambda S: etl.filldown(S[0], "v", "k", missing=0), "stream rect")
+E("fillright_missing", 1, lambda S: etl.fillright(S[0], missing=""), "stream")
+E("fillleft_missing", 1, lambda S: etl.fillleft(S[0], missing=""), "stream")
+E("convert_failonerror_false", 1, lambda S: etl.convert(S[0], "v", lambda v: 1 / v, failonerror=False), "stream")
+E("convert_errorvalue", 1, lambda S: etl.convert(S[0], ("v", "s"), lambda v: v + 1, errorvalue="E"), "stream")
+E("melt_named", 1, lambda S: etl.melt(S[0], key="k", variablefield="var", valuefield="val"), "stream")
+E("melt_variables_only", 1, lambda S: etl.melt(S[0], variables=["v", "s"]), "stream")
+E("split_keep", 1, lambda S: etl.split(S[0], "s", "x", ["p", "q"], include_original=True), "stream rect")
+E("capture_index", 1, lambda S: etl.capture(S[0], 3, "(.)(.*)", ["p", "q"], fill=["", ""]), "stream rect")
+E("unpackdict_keep", 1, lambda S: etl.unpackdict(S[0], "v", keys=["p"], includeoriginal=True, missing="M"), "stream rect", cells={"v": "dict"})
+E("unpack_int_newfields", 1, lambda S: etl.unpack(S[0], "v", 3, missing="M"), "stream", cells={"v": "pair"})
+E("selectusingcontext_first", 1, lambda S: etl.selectusingcontext(S[0], lambda p, c, n: p is None), "stream")
+E("search_flags", 1, lambda S: etl.search(S[0], "s", "X", flags=2), "stream rect")
+E("rowlenselect_complement", 1, lambda S: etl.rowlenselect(S[0], 4, complement=True), "stream")
+E("fieldmap_errorvalue", 1, lambda S: etl.fieldmap(S[0], collections.OrderedDict([("q", ("v", lambda v: 1 / v))]), errorvalue="E"), "stream")
+E("rowmap_failonerror_false", 1, lambda S: etl.rowmap(S[0], lambda r: [1 / r["v"]], ["q"], failonerror=False), "stream")
+E("distinct_count_none", 1, lambda S, **kw: etl.distinct(S[0], count="n", **kw), "sorted presorted rect", presort=None)
+E("conflicts_args", 1, lambda S, **kw: etl.conflicts(S[0], "k", missing=0, exclude="s", **kw), "sorted presorted rect", presort="k")
+E("aggregate_value_multi", 1, lambda S, **kw: etl.aggregate(S[0], "k", list, ("v", "s"), field="vs", **kw), "sorted presorted", presort="k")
+E("mergeduplicates_missing", 1, lambda S, **kw: etl.mergeduplicates(S[0], ("k", "j"), missing=0, **kw), "sorted presorted", presort=("k", "j"))
+E("leftjoin_missing_prefix", 2, lambda S, **kw: etl.leftjoin(S[0], etl.rename(S[1], _RN0), key="k", missing="M", lprefix="l_", rprefix="r_", **kw),
+  "sorted presorted", presort="k")
+E("lookupjoin_missing", 2, lambda S, **kw: etl.lookupjoin(S[0], etl.rename(S[1], _RN0), key="k", missing="M", **kw), "sorted presorted", presort="k")
+E("hashleftjoin_missing", 2, lambda S: etl.hashleftjoin(S[0], etl.rename(S[1], _RN0), key="k", missing="M"), "hash")
+E("crossjoin_missing", 2, lambda S: etl.crossjoin(S[0], S[1], missing="M"), "")
 # ---- headers --------------------------------------------------------------------------------
 E("rename", 1, lambda S: etl.rename(S[0], "k", "K"), "stream")
 E("rename_dict", 1, lambda S: etl.rename(S[0], {"k": "K", "v": "V"}), "stream")
